@@ -51,11 +51,13 @@ def run_c13(ctx):
         if b["what"] == "StateNotReached":
             ctx.notes.append("blocking state not established for %s/%s cap=%d (skipped)" % (r["worker"], r["state"], r["cap"]))
             continue
-        ctx.violation("%s/%s/%s" % (b["what"], r["worker"], r["state"]),
-                      "%s: worker %s cancelled while '%s' (channel capacity %d): returned=%s after %d ms, deliveries after "
-                      "return=%d, error=%r" % (b["what"], r["worker"], r["state"], r["cap"], r["returned"], r["ms"],
-                                               r["late"], r["err"]),
-                      {"kind": "worker-scenario", "scenario": {"worker": r["worker"], "state": r["state"], "cap": r["cap"]},
+        ctx.violation("%s/%s/%s/%s" % (b["what"], r["worker"], r["state"], "long-stall" if r.get("stall") else "short"),
+                      "%s: worker %s cancelled after %d ms in state '%s' (channel capacity / login variant %d): returned=%s "
+                      "after %d ms, deliveries after return=%d, error=%r" % (
+                          b["what"], r["worker"], r.get("stall", 0), r["state"], r["cap"], r["returned"], r["ms"],
+                          r["late"], r["err"]),
+                      {"kind": "worker-scenario", "scenario": {"worker": r["worker"], "state": r["state"], "cap": r["cap"],
+                                                               "stall": r.get("stall", 0)},
                        "observed": r})
     # binding self-test
     muts = []
@@ -109,7 +111,7 @@ def audit_line(i):
 
 
 CAUSES = ["sshd-eof", "audit-eof", "sshd-eof-partial", "audit-eof-partial", "audit-malformed", "audit-unknown-type",
-          "output-fails", "output-breaks-inflight", "bad-login-pid", "sigterm", "sigint",
+          "output-fails", "output-breaks-inflight", "output-breaks-staggered", "bad-login-pid", "sigterm", "sigint",
           "sshd-not-fifo", "sshd-missing", "audit-not-fifo", "audit-missing"]
 
 
@@ -120,7 +122,7 @@ def scenarios():
             out.append((c, "unopened"))
             continue
         out.append((c, "idle"))
-        if c not in ("audit-eof", "audit-eof-partial", "output-breaks-inflight"):
+        if c not in ("audit-eof", "audit-eof-partial", "output-breaks-inflight", "output-breaks-staggered"):
             out.append((c, "flood"))
         if c in ("sigterm", "sigint"):
             out.append((c, "unopened"))
@@ -170,7 +172,7 @@ def run_daemon_scenario(ctx, binp, idx, cause, load):
             os.mkfifo(p)
     outpath = "/dev/full" if cause == "output-fails" else op
     outreader = None
-    if cause == "output-breaks-inflight":
+    if cause in ("output-breaks-inflight", "output-breaks-staggered"):
         os.remove(op)
         os.mkfifo(op)
         outreader = os.open(op, os.O_RDONLY | os.O_NONBLOCK)
@@ -179,7 +181,7 @@ def run_daemon_scenario(ctx, binp, idx, cause, load):
     argv = [binp, "--sshd-pipe-path", sp, "--auditd-pipe-path", ap, "--app-events-output", outpath]
     blocker = None
     if load == "http":
-        argv += ["--healthz", "--metrics"]
+        argv += ["--healthz", "--metrics", "--audit-metrics", "--audit-seconds-interval", "1s"]
         if cause == "http-port-busy":
             import socket
             blocker = socket.socket(socket.AF_INET6, socket.SOCK_STREAM)
@@ -251,16 +253,31 @@ def run_daemon_scenario(ctx, binp, idx, cause, load):
                 fl.inject = bad
             else:
                 os.write(aw, bad)
-        elif cause == "output-breaks-inflight":
+        elif cause in ("output-breaks-inflight", "output-breaks-staggered"):
             # the reader of the output (a FIFO here) goes away while events of a correlated session are in flight
             os.write(sw, b"25007 Accepted password for bob from 10.0.0.1 port 22 ssh2\n")
             os.write(aw, b"type=LOGIN msg=audit(1668460768.100:29999): pid=25007 uid=0 old-auid=4294967295 auid=1000 tty=(none) old-ses=4294967295 ses=499 res=1\n")
             time.sleep(0.3)
             if outreader is not None:
                 os.close(outreader); outreader = None
-            for k in range(4):   # unterminated groups stay in the reassembler; a complete one triggers the failing write
-                os.write(aw, ("type=SYSCALL msg=audit(1668460769.%03d:%d): arch=c000003e syscall=59 success=yes exit=0 a0=1 a1=2 a2=3 a3=4 items=0 ppid=1 pid=25010 auid=1000 uid=1000 gid=1000 euid=1000 suid=1000 fsuid=1000 egid=1000 sgid=1000 fsgid=1000 tty=pts3 ses=499 comm=\"x\" exe=\"/bin/x\" key=\"k\"\n" % (k, 30100 + k)).encode())
-            os.write(aw, audit_line(500).encode())
+            unterminated = ("type=SYSCALL msg=audit(1668460769.%03d:%d): arch=c000003e syscall=59 success=yes exit=0 a0=1 a1=2 a2=3 a3=4 items=0 ppid=1 pid=25010 auid=1000 uid=1000 gid=1000 euid=1000 suid=1000 fsuid=1000 egid=1000 sgid=1000 fsgid=1000 tty=pts3 ses=499 comm=\"x\" exe=\"/bin/x\" key=\"k\"\n")
+            if cause == "output-breaks-inflight":
+                # unterminated groups stay in the reassembler; a complete event with a LOWER sequence number is
+                # handed over at once, its write fails while the others are still in flight (Close() flushes them)
+                for k in range(4):
+                    os.write(aw, (unterminated % (k, 30100 + k)).encode())
+                os.write(aw, audit_line(50).encode())
+            else:
+                # a steady stream of unterminated groups: the first failing write happens when the oldest one
+                # times out (2 s), with the younger ones still in flight
+                for k in range(30):
+                    try:
+                        os.write(aw, (unterminated % (k, 30100 + k)).encode())
+                    except OSError:
+                        break
+                    if proc.poll() is not None:
+                        break
+                    time.sleep(0.12)
         elif cause == "audit-malformed":
             if fl:
                 fl.inject = b"this is not an audit record\n"
@@ -380,7 +397,15 @@ def run_script(binp, d, i, strace, rnd):
     os.makedirs(wd, exist_ok=True)
     sp, ap = os.path.join(wd, "sshd-pipe"), os.path.join(wd, "audit-pipe")
     op = os.path.join(d, "out-%d.log" % i)
-    open(op, "w").close()
+    # every other run appends to what an earlier run of the daemon left behind
+    prior = ""
+    if i % 2 == 1:
+        prior = "".join(json.dumps({"type": "PriorRun", "n": k, "pad": "x" * rnd.randrange(1, 400)}) + "\n"
+                        for k in range(rnd.randrange(1, 6)))
+    with open(op, "w") as f:
+        f.write(prior)
+    with open(os.path.join(d, "prior-%d.txt" % i), "w") as f:
+        f.write(prior)
     os.mkfifo(sp)
     os.mkfifo(ap)
     cmd = [binp, "--sshd-pipe-path", sp, "--auditd-pipe-path", ap, "--app-events-output", op]
@@ -475,10 +500,12 @@ def run_c10(ctx):
         recs = tracker.hist_of(hs[hidx])
         last = recs[-1]
         ctx.violation(what, "%s violated by the output file of the built daemon (script %d: %d sshd lines and %d audit "
-                      "record groups written concurrently): %d output lines, torn=%s, writes not one-line=%s; line kinds %s"
+                      "record groups written concurrently): %d output lines, torn=%s, writes not one-line=%s, content left by an "
+                      "earlier run still intact=%s; line kinds %s"
                       % (what, hidx, sum(1 for r in recs if r.get("k") == "login"),
                          sum(1 for r in recs if r.get("k") == "audit"), last.get("lines", 0), last.get("torn"),
-                         last.get("badwrites"), [(x["kind"], x["id"]) for x in last.get("stream", [])][:40]),
+                         last.get("badwrites"), last.get("priorok", True),
+                         [(x["kind"], x["id"]) for x in last.get("stream", [])][:40]),
                       {"kind": "daemon-output", "script": hidx, "calls": recs[1:-1], "observed": last})
     # binding self-test
     muts = []
